@@ -1048,14 +1048,17 @@ fn gate_battery<G: crate::gates::gate::Gate<F, D>>(tag: &str, mk: impl Fn() -> G
         }
     }
     // (3) generator completeness and pinning: wires a generator writes are found by conflict (preset everything, drop what a generator overwrites)
-    for mode in 0..4 {
+    // gates whose first wire is a free field element (a base) and whose other inputs are bits: every such row is in the gate's domain
+    let free_first_wire = tag.contains("ExponentiationGate");
+    for mode in 0..5 {
         let consts: Vec<F> = (0..nc).map(|k| if mode != 1 { F::from_canonical_u64((k as u64 * 5 + 3) % 7) } else { F::rand() }).collect();
         let mut builder = CircuitBuilder::<F, D>::new(config.clone());
         let row = builder.add_gate(mk(), consts.clone());
         let data = match catch_unwind(AssertUnwindSafe(|| builder.build_prover::<PC>())) { Ok(d) => d, Err(_) => { continue; } };
         // mode 0: every wire in {0,1}; mode 1: every wire random; mode 2: wire 0 random, the others in {0,1}; mode 3: as mode 0, but the values are held in
         // their NON-canonical representation (v + p), which ordinary field arithmetic produces and generators must treat as the same element
-        let vals: Vec<F> = (0..nw).map(|k| if mode == 0 || (mode == 2 && k != 0) { F::from_canonical_u64(((k * 7 + 1) % 3 % 2) as u64) }
+        // mode 4: wire 0 random, every other wire ONE (all bits set, incl. the most significant ones)
+        let vals: Vec<F> = (0..nw).map(|k| if mode == 4 { if k == 0 { F::rand() } else { F::ONE } } else if mode == 0 || (mode == 2 && k != 0) { F::from_canonical_u64(((k * 7 + 1) % 3 % 2) as u64) }
             else if mode == 3 { F::from_noncanonical_u64(0xFFFF_FFFF_0000_0001u64 + ((k * 7 + 1) % 3 % 2) as u64) } else { F::rand() }).collect();
         let mut gen_panicked = false;
         let mut preset: Vec<bool> = vec![true; nw];
@@ -1091,6 +1094,7 @@ fn gate_battery<G: crate::gates::gate::Gate<F, D>>(tag: &str, mk: impl Fn() -> G
         let honest = eval(&rowv);
         if honest.iter().any(|c| !c.is_zero()) {
             // inputs outside the gate's domain (e.g. non-bits, too large a sum): only mode 0 (small 0/1 inputs) must be satisfiable
+            if free_first_wire && (mode == 2 || mode == 4) { bad.push(format!("{tag}: row filled by the gate's own generators (random base, {}) violates constraint {}", if mode == 4 { "all bits set" } else { "bits in {0,1}" }, honest.iter().position(|c| !c.is_zero()).unwrap())); }
             if mode == 0 || mode == 3 { bad.push(format!("{tag}: row filled by the gate's own generators (inputs in {{0,1}}{}) violates constraint {}", if mode == 3 { ", non-canonical representation" } else { "" }, honest.iter().position(|c| !c.is_zero()).unwrap())); }
             continue;
         }
@@ -2490,6 +2494,41 @@ fn c05_batch_skipped_layer() {
             Err(_) => { cases += 1; }   // the forger's own commit phase broke down: nothing was emitted
         }
     }
+    // three instances; the smallest is never reached by the folded layers (2^10 -> 2^9 -> 2^7 -> 2^6 never hits 2^5).  A prover that folds in the first
+    // `proved` instances only and claims openings[2] + delta must be accepted only when everything claimed is true and folded in
+    let run3 = |ks: [usize; 3], proved: usize, delta: FE| -> Option<bool> {
+        catch_unwind(AssertUnwindSafe(|| {
+            let arities = vec![1usize, 2, 1];
+            let fri_params = FriParams { config: FriConfig { rate_bits: 1, cap_height: 0, proof_of_work_bits: 0, reduction_strategy: FriReductionStrategy::Fixed(arities.clone()), num_query_rounds: 10 }, hiding: false, degree_bits: ks[0], reduction_arity_bits: arities };
+            let mut timing = TimingTree::default();
+            let traces: Vec<PolynomialValues<F>> = ks.iter().map(|&k| PolynomialValues::new(F::rand_vec(1 << k))).collect();
+            let oracle: BatchFriOracle<F, PC, D> = BatchFriOracle::from_values(traces, 1, false, 0, &mut timing, &[None; 3]);
+            let mut challenger = Challenger::<F, PoseidonHash>::new();
+            challenger.observe_cap(&oracle.batch_merkle_tree.cap);
+            let zeta = challenger.get_extension_challenge::<D>();
+            let mut claimed: Vec<FE> = oracle.polynomials.iter().map(|p| p.to_extension::<D>().eval(zeta)).collect();
+            claimed[2] += delta;
+            challenger.observe_extension_elements::<D>(&claimed);
+            let mut vch = challenger.clone();
+            let _alpha = challenger.get_extension_challenge::<D>();
+            let mut lde_coeffs = vec![]; let mut lde_values = vec![];
+            for p in oracle.polynomials.iter().take(proved) {
+                let mut q = p.to_extension::<D>().divide_by_linear(zeta); q.coeffs.push(FE::ZERO);
+                let lde = q.lde(1); lde_values.push(lde.clone().coset_fft(F::coset_shift().into())); lde_coeffs.push(lde);
+            }
+            let proof = batch_fri_proof::<F, PC, D>(&[&oracle.batch_merkle_tree], lde_coeffs[0].clone(), &lde_values, &mut challenger, &fri_params, &mut timing);
+            let instances: Vec<FriInstanceInfo<F, D>> = (0..3).map(|i| FriInstanceInfo { oracles: vec![FriOracleInfo { num_polys: 1, blinding: false }], batches: vec![FriBatchInfo { point: zeta, polynomials: vec![FriPolynomialInfo { oracle_index: 0, polynomial_index: i }] }] }).collect();
+            let openings: Vec<FriOpenings<F, D>> = claimed.iter().map(|&v| FriOpenings { batches: vec![FriOpeningBatch { values: vec![v] }] }).collect();
+            let ch = vch.fri_challenges::<PC, D>(&proof.commit_phase_merkle_caps, &proof.final_poly, proof.pow_witness, ks[0], &fri_params.config, None, None);
+            let out = catch_unwind(AssertUnwindSafe(|| verify_batch_fri_proof::<F, PC, D>(&ks, &instances, &openings, &ch, &[oracle.batch_merkle_tree.cap.clone()], &proof, &fri_params)));
+            matches!(out, Ok(Ok(())))
+        })).ok()
+    };
+    cases += 1; if run3([9, 8, 6], 3, FE::ZERO) != Some(true) { bad.push("batch FRI, degrees 2^9, 2^8, 2^6 under arities [1, 2, 1]: honest openings of three instances NOT accepted".into()); }
+    cases += 1; if run3([9, 8, 6], 3, FE::ONE) == Some(true) { bad.push("batch FRI, degrees 2^9, 2^8, 2^6 under arities [1, 2, 1]: false opening of the third instance ACCEPTED".into()); }
+    for delta in [FE::ONE, FE::TWO] {
+        cases += 1; if run3([9, 8, 4], 2, delta) == Some(true) { bad.push(format!("batch FRI, degrees 2^9, 2^8, 2^4 under arities [1, 2, 1] (the 2^5 domain is never reached): proof that folds in two instances only ACCEPTED for three (third opening false by {delta:?})")); }
+    }
     finish("c05_batch_skipped_layer", cases.max(1), bad);
 }
 
@@ -2927,6 +2966,38 @@ fn c13_hash_variants() {
         }
         pad_battery::<PoseidonHash>("PoseidonHash", &mut bad, &mut cases);
         pad_battery::<KeccakHash<25>>("KeccakHash", &mut bad, &mut cases);
+    }
+    // the Keccak permutation against its definition: the little-endian 64-bit words of H(s) || H(H(s)) || ..., words >= p SKIPPED (rejection sampling), the
+    // first twelve kept.  The states include one whose first digest has a word >= p (found by search: [494183523, 0, ..])
+    {
+        use crate::hash::keccak::KeccakPermutation;
+        use crate::iop::challenger::Challenger;
+        use keccak_hash::keccak;
+        const ORDER: u64 = 0xFFFF_FFFF_0000_0001;
+        let model = |st: &[u64; 12]| -> (Vec<u64>, bool) {
+            let mut bytes: Vec<u8> = st.iter().flat_map(|x| x.to_le_bytes()).collect();
+            let mut out = Vec::new(); let mut rejected = false;
+            while out.len() < 12 { let h = keccak(&bytes).to_fixed_bytes(); bytes = h.to_vec();
+                for w in h.chunks_exact(8) { let v = u64::from_le_bytes(w.try_into().unwrap()); if v >= ORDER { if out.len() < 12 { rejected = true; } } else if out.len() < 12 { out.push(v); } } }
+            (out, rejected)
+        };
+        let mut states: Vec<[u64; 12]> = vec![[0; 12], { let mut s = [0u64; 12]; s[0] = 494183523; s }];
+        for t in 0..40u64 { let mut s = [0u64; 12]; for (i, x) in s.iter_mut().enumerate() { *x = (t + 1).wrapping_mul(0x9E37_79B9_7F4A_7C15).rotate_left(i as u32 * 5) % ORDER; } states.push(s); }
+        let mut any_rejected = false;
+        for st in &states {
+            let (want, rej) = model(st); any_rejected |= rej;
+            let mut perm = KeccakPermutation::<F>::new(st.iter().map(|&x| F::from_canonical_u64(x))); perm.permute();
+            let got: Vec<u64> = AsRef::<[F]>::as_ref(&perm).iter().map(|x| x.to_canonical_u64()).collect();
+            cases += 1;
+            if got != want { bad.push(format!("KeccakPermutation::permute on state {st:?}{}: differs from the rejection-sampled hash onion", if rej { " (a digest word >= p must be skipped)" } else { "" })); }
+        }
+        if !any_rejected { bad.push("harness: no Keccak state exercises rejection".into()); }
+        // the transcript over it: a fresh challenger that observes the single element 494183523 squeezes the first elements of that permutation output
+        { let mut s = [0u64; 12]; s[0] = 494183523; let (want, _) = model(&s);
+          let mut ch = Challenger::<F, KeccakHash<25>>::new(); ch.observe_element(F::from_canonical_u64(494183523));
+          let got: Vec<u64> = ch.get_n_challenges(4).iter().map(|x| x.to_canonical_u64()).collect(); cases += 1;
+          let mut w: Vec<u64> = want[..8].to_vec(); w.reverse();
+          if got != w[..4] { bad.push("Keccak challenger after observing 494183523: challenges differ from the rejection-sampled hash onion".into()); } }
     }
     // Keccak sponge and hashing see the field ELEMENT, not its u64 representation: x and x + p (x < 2^32 - 1) are the same element
     {
